@@ -37,9 +37,21 @@ def build():
     one(r"for\s+rr\s+in\s+source\.question\(\)\s*\{\s*target\.push\(rr\?\)\?\s*;\s*\}", tr, "truncate copies questions")
     one(r"if\s+let\s+Some\(opt\)\s*=\s*source\.opt\(\)\s*\{\s*if\s+let\s+Err\(err\)\s*=\s*target\.push\(opt\.as_record\(\)\)", tr,
         "truncate copies the response's OPT")
-    if re.search(r"set_push_limit", tr):
-        raise GenError("truncate now sets a push limit: the model's truncated form is unbounded, re-transcribe")
-    defs.append(("trunc_rebuild_has_push_limit", "bool", "false"))
+    # the rebuilt message: no limit while the questions are pushed, then
+    # set_push_limit(max_response_size + 1) around the OPT push (a push fails when
+    # new_pos >= limit, so +1 admits exactly max_response_size octets), cleared afterwards
+    one(r"let\s+mut\s+target\s*=\s*target\.additional\(\)\s*;\s*target\.set_push_limit\(\s*max_response_size\s*\+\s*1\s*\)\s*;\s*"
+        r"if\s+let\s+Some\(opt\)\s*=\s*source\.opt\(\)", tr, "truncate: set_push_limit(max_response_size + 1) right before the OPT push")
+    if len(re.findall(r"set_push_limit", tr)) != 1:
+        raise GenError("truncate sets a push limit more than once")
+    one(r"target\.clear_push_limit\(\)\s*;\s*let\s+new_len\s*=\s*target\.as_slice\(\)\.len\(\)", tr, "truncate clears the push limit after the OPT push")
+    defs.append(("trunc_rebuild_has_push_limit", "bool", "true"))
+    defs.append(("trunc_rebuild_limit_slack", "N", "1%N"))
+    # fallback: OPT without options, version / rcode / payload size kept
+    one(r"if\s+let\s+Err\(err\)\s*=\s*target\.opt\(\|builder\|\s*\{\s*builder\.set_version\(opt\.version\(\)\)\s*;\s*"
+        r"builder\.set_rcode\(opt\.rcode\(response\.header\(\)\)\)\s*;\s*builder\s*\.set_udp_payload_size\(opt\.udp_payload_size\(\)\)\s*;\s*Ok\(\(\)\)\s*\}\)",
+        tr, "truncate: fallback to an OPT without options")
+    defs.append(("trunc_fallback_min_opt", "bool", "true"))
     pp = fn_body(man, "postprocess", after="impl<RequestOctets, NextSvc, RequestMeta>")
     one(r"\.set_id\(\s*request\.message\(\)\.header\(\)\.id\(\)\s*\)", pp, "postprocess copies the request id")
     one(r"response\.header_mut\(\)\.set_qr\(\s*true\s*\)", pp, "postprocess sets QR")
